@@ -82,7 +82,7 @@ let predict_oa setup op =
    (json_object_array_shrink, add, put_idx, insert_idx): the capacity the test operation meets
    is whatever that history left (exactly the length after shrink(a, 0), doubled after a
    growth, ...).  Arrays that come out of the parser or of a deep copy are not modelled here. *)
-let predict_arr setup op =
+let predict_arr all_too setup op =
   let yes _ = true and no _ = false in
   let arrays : (int * alist) list ref = ref [] and others : (int * elt) list ref = ref [] in
   let fresh = ref 1000 in
@@ -95,6 +95,7 @@ let predict_arr setup op =
     let r = reg (List.nth a 0) in
     match kind o with
     | "as" -> (r, None, OShrink (z_of_string (List.nth a 1)))
+    | "ad" -> (r, None, ODel (z_of_string (List.nth a 1), z_of_string (List.nth a 2)))
     | "aa" -> let c = reg (List.nth a 1) in (r, Some c, OAdd (child_of c))
     | "ap" -> let c = reg (List.nth a 1) in (r, Some c, OPut (z_of_string (List.nth a 2), child_of c))
     | "ai" -> let c = reg (List.nth a 1) in (r, Some c, OInsert (z_of_string (List.nth a 2), child_of c))
@@ -121,11 +122,16 @@ let predict_arr setup op =
   let arr = arr_of r in
   let ok r = match r with AOk _ -> true | _ -> false in
   let r1 = al_step yes arr o and r0 = al_step no arr o in
+  (* 'A': every request refused — the same as the single request refused; without a request the
+     operation does what it does fault-free (in particular del_idx: it never asks) *)
   if ok r1 && not (ok r0) then
     (match r0 with
-     | AFail a' -> Printf.sprintf "n=1 ? ks=0:F0:%s0" (if a' = arr then "u" else "c")
+     | AFail a' ->
+       let u = if a' = arr then "u" else "c" in
+       Printf.sprintf "n=1 ? ks=0:F0:%s0%s" u (if all_too then Printf.sprintf ",A:F0:%s0" u else "")
      | _ -> "n=1 ? ks=0:UB")
-  else "n=0 ? ks=-"
+  else if r0 = AUB then "n=0 ? ks=UB"
+  else if all_too then "n=0 ? ks=A:N:-0" else "n=0 ? ks=-"
 
 (* ------------------------------------------------------------------ string set / new *)
 let str_op o =
@@ -329,13 +335,15 @@ let run line =
   match String.split_on_char ' ' line with
   | [ks; setup; test] ->
     (try
-       if ks <> "*" then raise Unmodelled;
+       let all_too = (ks = "*,A") in
+       if ks <> "*" && not all_too then raise Unmodelled;
        let setup = split_ops setup in
        (match split_ops test with
         | [op] ->
           (match kind op with
            | "oa" -> predict_oa setup op
-           | "aa" | "ap" | "ai" | "as" -> predict_arr setup op
+           | "aa" | "ap" | "ai" | "as" | "ad" -> predict_arr all_too setup op
+           | _ when all_too -> raise Unmodelled
            | "ss" | "sl" -> predict_str setup op
            | "ns" -> if setup = [] then predict_ns op else raise Unmodelled
            | "ds" -> if setup = [] then predict_ds () else raise Unmodelled
